@@ -87,6 +87,13 @@ func (x *Exec) binop(st *State, op token.Token, a, b *Term, at types.Type) (*Ter
 		case token.OR:
 			return c.App("int_or", c.Int, a, bi), nil, nil
 		case token.XOR:
+			// x ^ 1 flips the lowest bit (exact for every two's-complement int): even -> x+1, odd -> x-1
+			for _, pr := range [][2]*Term{{a, bi}, {bi, a}} {
+				if v, ok := pr[1].IntVal(); ok && v == 1 {
+					even := c.Eq(c.Arith("rem", pr[0], c.IntLit(2)), c.IntLit(0))
+					return c.Ite(even, c.Arith("+", pr[0], c.IntLit(1)), c.Arith("-", pr[0], c.IntLit(1))), nil, nil
+				}
+			}
 			return c.App("int_xor", c.Int, a, bi), nil, nil
 		case token.AND_NOT:
 			return c.App("int_andnot", c.Int, a, bi), nil, nil
@@ -172,6 +179,24 @@ func (x *Exec) toBV(v *Term, w int) *Term {
 	if v.Sort.Kind == KInt {
 		if k, ok := v.IntVal(); ok {
 			return c.BVLit(uint64(k), w)
+		}
+		if lo, hi, okLo, okHi := x.knownRange(v); okLo && okHi && lo >= 0 && hi < 256 && x.cur != nil {
+			// a small non-negative integer (known from the path condition): the bit-vector b with these low bits,
+			// defined by  b's high bits are zero  and  weighted sum of the low bits = v
+			if x.i2bMemo == nil {
+				x.i2bMemo = map[*Term]*Term{}
+			}
+			k := bitsFor(hi)
+			key := c.App(fmt.Sprintf("i2b_key_%d", w), c.Int, v)
+			b := x.i2bMemo[key]
+			if b == nil {
+				b = c.Fresh("i2b", c.BV(w))
+				x.i2bMemo[key] = b
+			}
+			mask := uint64(1)<<uint(k) - 1
+			x.assumeFact(x.cur, c.Eq(c.Arith("bvand", b, c.BVLit(^mask, w)), c.BVLit(0, w)))
+			x.assumeFact(x.cur, c.Eq(x.bitSum(b, k), v))
+			return b
 		}
 		return c.mk(&Term{Op: "int2bv", Idx: w, Args: []*Term{v}, Sort: c.BV(w)})
 	}
@@ -629,6 +654,18 @@ func (x *Exec) copyOp(fr *Frame, st *State, cc *ssa.CallCommon, args []*Term) []
 	inside := c.And(c.Cmp("<=", doff, j), c.Cmp("<", j, c.Arith("+", doff, n)))
 	sv := c.Select(sarr, c.Arith("+", c.Sel(src, 1), c.Arith("-", j, doff)))
 	x.assumeFact(st, c.Forall([]*Term{j}, c.Eq(c.Select(na, j), c.Ite(inside, sv, c.Select(base, j)))))
+	if c.Reindex {
+		// the same fact read from the source side (a consequence of the line above, stated so that a read
+		// of the source array leads the solver to the corresponding element of the copy)
+		xs := c.BoundVar("sx", c.Int)
+		soff := c.Sel(src, 1)
+		srcIn := c.And(c.Cmp("<=", soff, xs), c.Cmp("<", xs, c.Arith("+", soff, n)))
+		dv := c.Select(na, c.Arith("+", doff, c.Arith("-", xs, soff)))
+		saved := c.Reindex
+		c.Reindex = false
+		x.assumeFact(st, c.Forall([]*Term{xs}, c.Implies(srcIn, c.Eq(dv, c.Select(sarr, xs)))))
+		c.Reindex = saved
+	}
 	x.storeArr(st, darr, na, es, cc.Pos(), fr.fn.String()+" (copy)")
 	return []Outcome{{st: st, kind: ORet, val: n}}
 }
